@@ -34,6 +34,7 @@ import (
 var mapping = seq.Mapping{
 	"k": seq.NewSingleType(seq.TokenizerTypeKeyword, "", 0),
 	"g": seq.NewSingleType(seq.TokenizerTypeKeyword, "", 0),
+	"v": seq.NewSingleType(seq.TokenizerTypeKeyword, "", 0),
 }
 
 // guarded runs f; a panic or a hang (hangAfter) is reported, never propagated.
@@ -208,6 +209,115 @@ func searchParams(p *Params) (processor.SearchParams, error) {
 	return sp, nil
 }
 
+var aggFuncs = []int{seq.AggFuncSum, seq.AggFuncMin, seq.AggFuncMax, seq.AggFuncAvg}
+
+// searchParamsAgg: the request of p with ONE aggregation fn(v) group by g instead of the count aggregation.
+func searchParamsAgg(p *Params, fn int) (processor.SearchParams, error) {
+	q := *p
+	q.Agg = false
+	sp, err := searchParams(&q)
+	if err != nil {
+		return sp, err
+	}
+	all := []parser.Term{{Kind: parser.TermSymbol, Data: "*"}}
+	sp.AggQ = []processor.AggQuery{{
+		Field:   &parser.Literal{Field: "v", Terms: all},
+		GroupBy: &parser.Literal{Field: "g", Terms: all},
+		Func:    seq.AggFunc(fn),
+	}}
+	return sp, nil
+}
+
+// splitGroup: some fraction's hits of a group all lack the field v while another fraction holds hits of
+// that group with the field (the shape on which a lossy container merge shows).
+func splitGroup(layout [][]Doc, p *Params) bool {
+	type gs struct{ with, without int }
+	per := make([]map[string]*gs, len(layout))
+	for i, f := range layout {
+		per[i] = map[string]*gs{}
+		for _, d := range f {
+			if d.G == "" || !p.matches(d) || d.MID < p.From || d.MID > p.To {
+				continue
+			}
+			if per[i][d.G] == nil {
+				per[i][d.G] = &gs{}
+			}
+			if d.V != nil {
+				per[i][d.G].with++
+			} else {
+				per[i][d.G].without++
+			}
+		}
+	}
+	for i := range per {
+		for g, a := range per[i] {
+			if a.with != 0 || a.without == 0 {
+				continue
+			}
+			for j := range per {
+				if j != i && per[j][g] != nil && per[j][g].with > 0 {
+					return true
+				}
+			}
+		}
+	}
+	return false
+}
+
+// runAggSearch drives Searcher.SearchDocs with a field aggregation over fracs and adds the case.
+func runAggSearch(w *casefile.Writer, sp *Spec, fracs fracmanager.List, single *faggObs) {
+	p := sp.P
+	params, err := searchParamsAgg(p, sp.Func)
+	if err != nil {
+		w.Violate("error:aggfield:parse", err.Error(), sp)
+		return
+	}
+	s := fracmanager.NewSearcher(4, fracmanager.SearcherCfg{FractionsPerIteration: sp.FPI})
+	var prepared fracmanager.List
+	var qpr *seq.QPR
+	err, pn, hung := guarded(func() error {
+		var e error
+		prepared, e = s.VerifC05PrepareFracs(append(fracmanager.List{}, fracs...), params)
+		if e != nil {
+			return e
+		}
+		qpr, e = s.SearchDocs(context.Background(), append([]frac.Fraction{}, fracs...), params)
+		return e
+	})
+	if direct(w, "aggfield", sp, err, pn, hung) {
+		return
+	}
+	perm := make([]int, 0, len(prepared))
+	for _, pf := range prepared {
+		for i, f := range fracs {
+			if f == pf {
+				perm = append(perm, i)
+			}
+		}
+	}
+	o, oerr := observeFagg(qpr)
+	if oerr != nil {
+		w.Violate("unrepresentable:aggfield", oerr.Error(), sp)
+		return
+	}
+	sg := "None"
+	if single != nil {
+		sg = "(Some " + single.coq() + ")"
+	}
+	split := splitGroup(sp.Layout, p)
+	if split {
+		w.Count("aggfield:group-part-without-field")
+	}
+	w.Count(fmt.Sprintf("aggfield:fpi=%d", sp.FPI))
+	w.Count(fmt.Sprintf("aggfield:func=%d", sp.Func))
+	w.Count(fmt.Sprintf("aggfield:fractions=%d", min(len(sp.Layout), 6)))
+	if p.Asc {
+		w.Count("aggfield:asc")
+	}
+	w.Add(fmt.Sprintf("CAggSearch\n    %s\n    %s %d%%nat %s\n    %s %s", coqALayout(sp.Layout, p), coqParams(p), sp.FPI,
+		coqNats(perm), o.coq(), sg), "aggfield", len(sp.Layout) >= 2 && split, sp, o)
+}
+
 func hasDupIDs(layout [][]Doc) bool {
 	seen := map[[2]uint64]bool{}
 	for _, f := range layout {
@@ -341,12 +451,13 @@ func toBuildDocs(f []Doc) []fracbuild.Doc {
 	out := make([]fracbuild.Doc, len(f))
 	for i, d := range f {
 		toks := []string{"k:" + d.K}
-		body := fmt.Sprintf(`{"k":%q}`, d.K)
 		if d.G != "" {
 			toks = append(toks, "g:"+d.G)
-			body = fmt.Sprintf(`{"k":%q,"g":%q}`, d.K, d.G)
 		}
-		out[i] = fracbuild.Doc{MID: d.MID, RID: d.RID, Body: []byte(body), Tokens: toks}
+		if d.V != nil {
+			toks = append(toks, fmt.Sprintf("v:%d", *d.V))
+		}
+		out[i] = fracbuild.Doc{MID: d.MID, RID: d.RID, Body: docBody(d), Tokens: toks}
 	}
 	return out
 }
@@ -405,7 +516,7 @@ func (s *store) close() {
 }
 
 // runReal builds the layout (and the one-fraction reference) once and runs every request.
-func runReal(w *casefile.Writer, layout [][]Doc, sealed []bool, single bool, reqs []*Spec) {
+func runReal(w *casefile.Writer, layout [][]Doc, sealed []bool, single bool, reqs []*Spec, aggReqs []*Spec) {
 	var st, ref *store
 	err, pn, hung := guarded(func() error {
 		var e error
@@ -464,6 +575,32 @@ func runReal(w *casefile.Writer, layout [][]Doc, sealed []bool, single bool, req
 		}
 		runSearch(w, "real", sp, st.fracs, so)
 	}
+	for _, sp := range aggReqs {
+		sp.Kind, sp.Layout, sp.Sealed, sp.Single = "aggreal", layout, sealed, single
+		var so *faggObs
+		if ref != nil {
+			params, perr := searchParamsAgg(sp.P, sp.Func)
+			if perr != nil {
+				w.Violate("error:aggfield:parse", perr.Error(), sp)
+				continue
+			}
+			var q *seq.QPR
+			err, pn, hung := guarded(func() error {
+				var e error
+				q, e = fracmanager.NewSearcher(4, fracmanager.SearcherCfg{}).SearchDocs(context.Background(), ref.fracs, params)
+				return e
+			})
+			if direct(w, "aggfield:single", sp, err, pn, hung) {
+				continue
+			}
+			var oerr error
+			if so, oerr = observeFagg(q); oerr != nil {
+				w.Violate("unrepresentable:aggfield:single", oerr.Error(), sp)
+				continue
+			}
+		}
+		runAggSearch(w, sp, st.fracs, so)
+	}
 }
 
 // ---------------------------------------------------------------- main
@@ -479,8 +616,10 @@ func runSpec(w *casefile.Writer, sp *Spec) {
 	case "fake":
 		runFake(w, sp)
 	case "real":
-		runReal(w, sp.Layout, sp.Sealed, sp.Single, []*Spec{sp})
-	case "proxy":
+		runReal(w, sp.Layout, sp.Sealed, sp.Single, []*Spec{sp}, nil)
+	case "aggreal":
+		runReal(w, sp.Layout, sp.Sealed, sp.Single, nil, []*Spec{sp})
+	case "proxy", "aggproxy", "proxydocs":
 		runProxy(w, sp.Shards, sp.RSealed, sp.Fail, sp.FPI, []*Spec{sp})
 	default:
 		panic("unknown spec kind " + sp.Kind)
